@@ -308,6 +308,10 @@ def simulate(ctx, i, rng, case):
         # rules are long-lived objects: the same ones are used for a second simulation after reset
         run0 = spec['schedule'][0]
         spec['schedule'] = [run0, {'op': 'reset'}, {'op': 'reapply'}, dict(run0)]
+        if rng.random() < 0.5:
+            # ... under another load function (what a rule derived from the first history's load must not survive)
+            l2 = dict(spec['load'], A=GEN.sig(spec['load']['A'] * 0.4 + 0.15 * spec['_ref']['T_out'], 4))
+            spec['schedule'].insert(3, {'op': 'setload', 'load': l2})
     try:
         b = B.build(spec)
     except Exception as ex:
